@@ -73,8 +73,14 @@ CHECKS = {
          "max+1 with bottom-up fallback) and TLC checks freshness at design level over decks with id gaps, ids near 2^31, slide ids at "
          "2147483647 and permuted part names (counterexamples are replayed, not trusted). After every real step the ids read from the "
          "serialised parts are validated by TLC: new shape ids fresh and positive, slide ids fresh/in range/stable, relationship ids unique "
-         "and not reassigned while referenced, part names unique, slides named slide1..n once accessed, earlier lookups stable.",
-    note="Trusted: TLC, the lxml-based observation (never via prs.slides). Known finding: turbo mode + group/freeform allocator collision (experimental feature).",
+         "and not reassigned while referenced, part names unique, slides named slide1..n once accessed, earlier lookups stable. "
+         "Allocator stage (Alloc.tla / MC_Alloc / Trace_Alloc): one state machine per allocator (_next_rId, next_partname, next_image_partname, "
+         "next_media_partname, CT_SlideIdList._next_id, both shape-id allocators with the turbo cache, _next_cTn_id); TLC enumerates EVERY subset "
+         "of a universe of pre-existing identifiers (gaps, zero, padded spelling, non-numeric, same number under another extension, value-space "
+         "bounds) x every short allocate/allocate-by-gap/release/turbo sequence, checks the transcription at design level and emits each history; "
+         "each is replayed on the real object and the identifier set read back after every call is validated by TLC (Fresh, InRange, ExistingKept, "
+         "ExactlyOneNew, Succeeds).",
+    note="Trusted: TLC, the lxml-based observation (never via prs.slides). Known finding: turbo mode + group/freeform allocator collision (experimental feature). Shape ids above 2^31 are not explored (TLC integers).",
     technique="TLA+ allocator transcription checked by TLC + history replay + TLC trace validation on observed ids"),
  "C07": dict(
     category="model_checking", design_ref="DESIGN.md §4 C07",
